@@ -115,6 +115,15 @@ def check(ctx, filt):
     ok = af == {(RXA, False), (SOF, True)}
     ctx.ob('C01.frame-guard', 'USBTokenDetector.new_frame' + tag, ok, nf[0].loc,
            'new_frame only at packet end for PID == SOF, regardless of address: %s' % sorted(af))
+    # idle gaps: between the bytes of a packet rx_valid may be low for any number of cycles (full speed: ~40); every
+    # state on the way to the report must simply wait then
+    for s_ in fsm.states:
+        if s_ in (init, R) or not reaches(fsm, s_, R, avoid={init}):
+            continue
+        og = state_outcomes(fsm, s_, {RXA: True, RXV: False})
+        ctx.ob('C01.byte-gap', 'USBTokenDetector.state#%d.gap%s' % (fsm.states.index(s_), tag), set(og) == {None}, fsm.state_loc[s_],
+               'while the packet is in progress and no byte is presented (rx_active & ~rx_valid) state %s must hold: outcomes %s' % (
+                   s_, sorted(map(str, og))))
     # (d)
     o = state_outcomes(fsm, R, {RXA: True, RXV: True})
     bad = [d for d in o if d is None or d == R or (d != init and reaches(fsm, d, R, avoid={init}))]
